@@ -21,8 +21,10 @@ FILES = {
     "char": [b"a{b}(c)d", b"h\nDDBEGIN\n{ab}c\nDDEND\nt", b"a\r\nb\rc", b"h\r\n// DDBEGIN\r\n(ab)c\r\n// DDEND\r\nt\r\n",
              b"// DDBEGIN\rab\r// DDEND\r"],
     "symbol": [b"f(a){b;c};g[1]=2;\n", b"h\n// DDBEGIN\nf(a);g\nb;c\n// DDEND\nt\n", b"// DDBEGIN\r\na;b\rc;d\r\n// DDEND"],
-    "jsstr": [b"x = 'a{b}c' + \"(d)\\x41\";\ny = 'zz';\n"],
-    "attrs": [b"<a b=\"{\" c='}' d=e f><g h='(' i=\")\">text</g>\n"],
+    "jsstr": [b"x = 'a{b}c' + \"(d)\\x41\";\ny = 'zz';\n",
+              # two never-closed quote characters (an apostrophe in a comment, a quote inside a regex literal) around closed strings
+              b"// it's here\nx = 'ab';\nif (/\"/.test(x)) y = \"cd\";\n", b"a = \"p\" + 'q'; // don't\nb = /[\"]/;\nc = 'rs';\n"],
+    "attrs": [b"<a b=\"{\" c='}' d=e f><g h='(' i=\")\">text</g>\n", b"<p q=r s>t<u v='w' x=\"y\nz <k l=m"],
 }
 
 
@@ -109,6 +111,23 @@ def loaders_stream(ctx, count, do_model=True):
                         one(ctx, name, cfg, kind, f, lambda k, c, seq=seq: seq[k % 251], do_model)
 
 
+def load_only(ctx, n):
+    """every candidate is built from the loaded testcase: if loading alters the bytes (a splitter that drops or doubles text
+    when it back-tracks), every tested file differs from the original in bytes that are not atoms.  Grammar-directed JS and
+    markup documents cut off at every position."""
+    from . import c16
+    for _ in range(n):
+        for kind, doc in (("jsstr", c16.gen_js(ctx.rng)), ("attrs", c16.gen_doc(ctx.rng))):
+            for k in range(1, len(doc) + 1):
+                data = doc[:k]
+                res = loaders.real_load(kind, data)
+                ctx.evaluations += 1
+                if res[0] == "ok" and strat.content(strat.fields(res[1])) != data:
+                    ctx.fail("original-altered", f"{kind}: the loaded testcase writes {strat.content(strat.fields(res[1]))!r} for the file {data!r}",
+                             dict(splitter=kind, data=common.enc_bytes(data)))
+                    return
+
+
 def torn_writes(ctx):
     """an interrupt (Ctrl-C) arrives while the candidate is half written: once `run()` has returned control the file is
     again the original with reducible atoms deleted (never the torn candidate), for the three strategies"""
@@ -152,6 +171,7 @@ def torn_writes(ctx):
 
 def search(ctx):
     torn_writes(ctx)
+    load_only(ctx, 1500 if ctx.thorough else 150)
     sweep(ctx, 7, 2, do_model=False)
     loaders_stream(ctx, 6, do_model=False)
 
